@@ -1,5 +1,5 @@
 import Ptn.C07.Model
-import Ptn.C05.Props
+import Ptn.C05.Core
 import Ptn.C06.Core
 /-! Property theorems for C07 (two-site TDVP). -/
 namespace Ptn.C07
